@@ -19,6 +19,27 @@ Fixpoint find_entry (tbl : list (string * Z * Z * Z * Z * bool)) (name : string)
   | t :: r => let '(n, e) := dec_entry t in if String.eqb n name then Some e else find_entry r name
   end.
 
+(* strings.Split for a non-empty delimiter: leftmost, non-overlapping occurrences (BindWithDelimiter) *)
+Fixpoint starts_with (d s : str) : bool :=
+  match d, s with
+  | [], _ => true
+  | x :: d', y :: s' => Ascii.eqb x y && starts_with d' s'
+  | _ :: _, [] => false
+  end.
+Fixpoint split_aux (d s : str) (skip : nat) (cur : str) : list str :=
+  match s with
+  | [] => [rev cur]
+  | c :: r =>
+      match skip with
+      | S k => split_aux d r k cur                       (* inside an occurrence of the delimiter *)
+      | O => if starts_with d s then rev cur :: split_aux d r (List.length d - 1) []
+             else split_aux d r 0 (c :: cur)
+      end
+  end.
+Definition split (d s : str) : list str := split_aux d s 0 [].
+Fixpoint join (d : str) (l : list str) : str :=
+  match l with [] => [] | [x] => x | x :: r => x ++ d ++ join d r end.
+
 Section WithOracle.
 Variable orc : Z -> Z -> str -> option Z.
 
@@ -56,6 +77,23 @@ Definition slice_call (e : entry) (ff had_err : bool) (vs : list str) (dest : li
          if had_err || err then (dest, err) else (tmp, false)
   end.
 
+(* scalar methods of binder.go that are written out by hand there (no common helper, so the translator has no
+   table row for them): same protocol - skip after an error in fail-fast mode, empty text = absent (an error for
+   the Must variant), store the converted value only on success.  Families: 5 the destination's own
+   UnmarshalText / UnmarshalParam / UnmarshalJSON, 6 the text itself (String), 7 Unix time in s / ms / ns.
+   Hand-written rows, tied to the code by the correspondence only. *)
+Definition extra_scalars : list (string * Z * Z * Z * Z * bool) := [
+  ("TextUnmarshaler", 5, 8, 8, 8, false); ("MustTextUnmarshaler", 5, 8, 8, 8, true);
+  ("BindUnmarshaler", 5, 8, 8, 8, false); ("MustBindUnmarshaler", 5, 8, 8, 8, true);
+  ("JSONUnmarshaler", 5, 8, 8, 8, false); ("MustJSONUnmarshaler", 5, 8, 8, 8, true);
+  ("String", 6, 64, 64, 64, false); ("MustString", 6, 64, 64, 64, true);
+  ("UnixTime", 7, 1, 64, 64, false); ("MustUnixTime", 7, 1, 64, 64, true);
+  ("UnixTimeMilli", 7, 2, 64, 64, false); ("MustUnixTimeMilli", 7, 2, 64, 64, true);
+  ("UnixTimeNano", 7, 3, 64, 64, false); ("MustUnixTimeNano", 7, 3, 64, 64, true)
+]%string.
+Definition find_scalar (name : string) : option entry :=
+  match find_entry binder_scalars name with Some e => Some e | None => find_entry extra_scalars name end.
+
 (* a chain of calls on one binder *)
 Inductive call := CScalar (name : string) (v : str) (dest : Z) | CSlice (name : string) (vs : list str) (dest : list Z).
 Inductive dest_val := DScalar (z : Z) | DSlice (l : list Z) | DUnknownMethod.
@@ -69,7 +107,7 @@ Fixpoint chain (ff had_err : bool) (cs : list call) : list dest_val * bool :=
         match c with
         | CScalar n v dest =>
             if skip then (DScalar dest, false)
-            else match find_entry binder_scalars n with
+            else match find_scalar n with
                  | Some e => let '(x, er) := scalar_call e v dest in (DScalar x, er)
                  | None => (DUnknownMethod, false)
                  end
